@@ -131,6 +131,24 @@ Example kind_preservation_unrestricted_false :
               res_kinds (conv_fs (b_new k m)) <> Some [k].
 Proof. exact kind_preservation_unrestricted_false_l. Qed.
 
+(* 3c. The ORDER of the rules (first-match switches: the order is the precedence) of the generated tables is the
+      expected one (hand-written in Conv.v): in ConvertFileSystemError the timeout case comes directly after the
+      pass-through of cancelled / timeout and BEFORE exists / conflict / not found / ...; a reordering flips this fact. *)
+Theorem rule_order_as_expected :
+  rule_kinds platform_cases = expected_order_platform /\ rule_kinds fs_cases = expected_order_fs /\
+  rule_kinds io_cases = expected_order_io /\ rule_kinds proc_cases = expected_order_proc.
+Proof. exact rule_order_l. Qed.
+Print Assumptions rule_order_as_expected.
+
+(* 3d. A deadline wins in composite backend values: for every base condition c that ConvertFileSystemError maps to
+      timeout and every other base condition d of the domain (neither spelling "not supported", which platform.ConvertError
+      re-reads first), a value carrying BOTH — errors.Join in either order, also inside a PathError — is mapped to
+      exactly timeout ([deadline_wins_cert] spells this out as a computable statement over base_conds x base_conds).
+      Context errors inside ANY composite are covered by converters_context_pass (all values). *)
+Theorem deadline_wins_in_composites : deadline_wins_cert = true.
+Proof. exact deadline_wins_l. Qed.
+Print Assumptions deadline_wins_in_composites.
+
 (* 4. Every name of the generated tables (predicate helper, errors.Is target, pre-step) is one this model interprets. *)
 Theorem converter_tables_wellformed : tables_ok = true.
 Proof. exact tables_ok_l. Qed.
